@@ -47,6 +47,96 @@ struct ConnSpec { unsigned id; double sx, sy, dx, dy; };
 
 static LPt toL(double x, double y) { return LPt{(i64) llround(x * 64), (i64) llround(y * 64)}; }
 
+// one case: inputs, libavoid run, oracle certificate
+static void runCase(long k, const std::string &tag, const vs::Scene &s, const std::vector<ConnSpec> &cs, bool lee, double penalty, bool ignoreRegions) {
+    vh::beginCase(k, tag.c_str());
+    printf("cfg lee %d penalty %s ignoreRegions %d\n", (int) lee, vh::hx(penalty).c_str(), (int) ignoreRegions);
+    for (size_t i = 0; i < s.shapes.size(); ++i) vs::printShape((unsigned) (i + 1), s.shapes[i]);
+    for (auto &c : cs) printf("conn %u %s %s %s %s\n", c.id, vh::hx(c.sx).c_str(), vh::hx(c.sy).c_str(), vh::hx(c.dx).c_str(), vh::hx(c.dy).c_str());
+    fflush(stdout);
+    // ---- libavoid
+    Router *router = new Router(PolyLineRouting);
+    router->UseLeesAlgorithm = lee;
+    router->IgnoreRegions = ignoreRegions;
+    router->setRoutingParameter(segmentPenalty, penalty);       // every other penalty is 0 by default
+    for (size_t i = 0; i < s.shapes.size(); ++i) { Polygon p = vs::toAvoid(s.shapes[i]); new ShapeRef(router, p, (unsigned) (i + 1)); }
+    std::vector<ConnRef *> crs;
+    for (auto &c : cs) crs.push_back(new ConnRef(router, ConnEnd(Point(c.sx, c.sy)), ConnEnd(Point(c.dx, c.dy)), c.id));
+    router->processTransaction();
+    for (size_t i = 0; i < crs.size(); ++i) {
+        vs::printPts("route", cs[i].id, crs[i]->route().ps);
+        vs::printPts("display", cs[i].id, crs[i]->displayRoute().ps);
+    }
+    delete router;
+    // ---- oracle (untrusted): exact visibility, Dijkstra in doubles
+    std::vector<std::vector<LPt> > polys;
+    std::vector<LPt> V; std::vector<Point> VD;
+    for (auto &p : s.shapes) { std::vector<LPt> q; for (auto &v : p) { q.push_back(toL(v.x, v.y)); V.push_back(q.back()); VD.push_back(v); } polys.push_back(q); }
+    size_t C = V.size(), N = C + 2;
+    V.resize(N); VD.resize(N);
+    auto visible = [&](size_t i, size_t j) {
+        for (auto &q : polys) if (segHitsInteriorL(q, V[i], V[j])) return false;
+        return true;
+    };
+    std::vector<std::vector<char> > vis(N, std::vector<char>(N, 0));
+    for (size_t i = 0; i < C; ++i) for (size_t j = i + 1; j < C; ++j) vis[i][j] = vis[j][i] = visible(i, j);
+    auto len = [&](size_t i, size_t j) { double dx = VD[i].x - VD[j].x, dy = VD[i].y - VD[j].y; return std::sqrt(dx * dx + dy * dy); };
+    const double INF = std::numeric_limits<double>::infinity();
+    for (auto &c : cs) {
+        V[C] = toL(c.sx, c.sy); VD[C] = Point(c.sx, c.sy); V[C + 1] = toL(c.dx, c.dy); VD[C + 1] = Point(c.dx, c.dy);
+        for (size_t e = C; e < N; ++e) for (size_t j = 0; j < N; ++j) if (j != e) vis[e][j] = vis[j][e] = visible(e, j);
+        std::vector<size_t> path;
+        double best = INF;
+        if (penalty == 0) {
+            std::vector<double> dist(N, INF); std::vector<long> prev(N, -1); std::vector<char> done(N, 0);
+            dist[C] = 0;
+            for (size_t it = 0; it < N; ++it) {
+                size_t u = N; for (size_t i = 0; i < N; ++i) if (!done[i] && dist[i] < INF && (u == N || dist[i] < dist[u])) u = i;
+                if (u == N) break;
+                done[u] = 1;
+                for (size_t w = 0; w < N; ++w) if (w != u && vis[u][w]) { double nd = dist[u] + len(u, w); if (nd < dist[w]) { dist[w] = nd; prev[w] = (long) u; } }
+            }
+            best = dist[C + 1];
+            printf("cert %u %zu", c.id, N);
+            for (size_t i = 0; i < N; ++i) printf(" %s", vh::hx(dist[i] < INF ? dist[i] * (1.0 - 1e-10) : 0.0).c_str());
+            printf("\n");
+            if (best < INF) for (long v = (long) C + 1; v >= 0; v = prev[v]) path.push_back((size_t) v);
+            std::reverse(path.begin(), path.end());
+        } else {
+            // states (v, p): at v having arrived from p (p = N: start)
+            size_t S = N * (N + 1);
+            std::vector<double> dist(S, INF); std::vector<long> prev(S, -1);
+            typedef std::pair<double, size_t> QE;
+            std::priority_queue<QE, std::vector<QE>, std::greater<QE> > pq;
+            dist[C * (N + 1) + N] = 0; pq.push(QE(0, C * (N + 1) + N));
+            long goal = -1;
+            while (!pq.empty()) {
+                QE t = pq.top(); pq.pop();
+                if (t.first > dist[t.second]) continue;
+                size_t v = t.second / (N + 1), p = t.second % (N + 1);
+                if (v == C + 1) { goal = (long) t.second; best = t.first; break; }
+                for (size_t w = 0; w < N; ++w) if (w != v && vis[v][w]) {
+                    double cst = len(v, w);
+                    if (p != N && area2L(V[p], V[v], V[w]) != 0) cst += penalty;
+                    else if (p != N) {      // collinear: straight on is free, doubling back is a bend
+                        i64 dot = (V[v].x - V[p].x) * (V[w].x - V[v].x) + (V[v].y - V[p].y) * (V[w].y - V[v].y);
+                        if (dot < 0) cst += penalty;
+                    }
+                    size_t ns = w * (N + 1) + v;
+                    if (t.first + cst < dist[ns]) { dist[ns] = t.first + cst; prev[ns] = (long) t.second; pq.push(QE(dist[ns], ns)); }
+                }
+            }
+            for (long st = goal; st >= 0; st = prev[st]) path.push_back((size_t) st / (N + 1));
+            std::reverse(path.begin(), path.end());
+        }
+        printf("wit %u %zu", c.id, path.size());
+        for (size_t i = 0; i < path.size(); ++i) printf(" %zu", path[i]);
+        printf("\n");
+        printf("oracle %u %s\n", c.id, vh::hx(best).c_str());
+    }
+    vh::endCase();
+}
+
 int main(int argc, char **argv) {
     vh::Args a = vh::parseArgs(argc, argv);
     bool thorough = (a.tier == "thorough");
@@ -84,92 +174,49 @@ int main(int argc, char **argv) {
         bool degenerate = vs::hasCollinearTriple(rp, eps);
         std::string tag = degenerate ? (lee ? "lee-collinear" : "naive-vis-collinear") : (lee ? "generic-lee" : "generic-naive");
         if (penalty > 0) tag += ignoreRegions ? "-pen-pruned" : "-pen-full";
-        vh::beginCase(k, tag.c_str());
-        printf("cfg lee %d penalty %s ignoreRegions %d\n", (int) lee, vh::hx(penalty).c_str(), (int) ignoreRegions);
-        for (size_t i = 0; i < s.shapes.size(); ++i) vs::printShape((unsigned) (i + 1), s.shapes[i]);
-        for (auto &c : cs) printf("conn %u %s %s %s %s\n", c.id, vh::hx(c.sx).c_str(), vh::hx(c.sy).c_str(), vh::hx(c.dx).c_str(), vh::hx(c.dy).c_str());
-        fflush(stdout);
-        // ---- libavoid
-        Router *router = new Router(PolyLineRouting);
-        router->UseLeesAlgorithm = lee;
-        router->IgnoreRegions = ignoreRegions;
-        router->setRoutingParameter(segmentPenalty, penalty);       // every other penalty is 0 by default
-        for (size_t i = 0; i < s.shapes.size(); ++i) { Polygon p = vs::toAvoid(s.shapes[i]); new ShapeRef(router, p, (unsigned) (i + 1)); }
-        std::vector<ConnRef *> crs;
-        for (auto &c : cs) crs.push_back(new ConnRef(router, ConnEnd(Point(c.sx, c.sy)), ConnEnd(Point(c.dx, c.dy)), c.id));
-        router->processTransaction();
-        for (size_t i = 0; i < crs.size(); ++i) {
-            vs::printPts("route", cs[i].id, crs[i]->route().ps);
-            vs::printPts("display", cs[i].id, crs[i]->displayRoute().ps);
+        runCase(k, tag, s, cs, lee, penalty, ignoreRegions);
+    }
+    // ---- aligned-sides class (strict): 2..4 separated rectangles in a row (or column) with one side on a
+    //      common line, every insertion order, endpoints beyond both ends of the row and slightly on the
+    //      obstacle side of the line, so that the optimum runs along the common line past all of them.
+    long k = nrand;
+    long nal = (thorough ? 120 : 40) * a.scale;
+    for (long c = 0; c < nal; ++c, ++k) {
+        if (!a.want(k)) continue;
+        vh::Rng r = vh::caseRng(a.seed, k, 11);
+        int nb = (int) r.range(2, 4);
+        bool column = r.coin();             // boxes stacked along y (shared x line) instead of along x
+        bool lowSide = r.coin();            // shared line is the low (min) side of the boxes, else the high side
+        double penalty = (double) std::vector<int>{0, 0, 5, 50}[r.range(0, 3)];
+        bool ignoreRegions = r.coin(4, 5);
+        long U = r.range(1, 3);             // scale
+        long line = r.range(0, 6);
+        std::vector<vs::IPoly> boxes;
+        long pos = r.range(0, 4), minExt = 1000;
+        for (int i = 0; i < nb; ++i) {
+            long w = r.range(3, 12), h = r.range(5, 12);
+            minExt = std::min(minExt, h);
+            long a0 = pos, a1 = pos + w, b0 = lowSide ? line : line - h, b1 = lowSide ? line + h : line;
+            boxes.push_back(column ? vs::rectPoly(b0 * U, a0 * U, b1 * U, a1 * U) : vs::rectPoly(a0 * U, b0 * U, a1 * U, b1 * U));
+            pos = a1 + r.range(1, 12);      // gap >= 1
         }
-        delete router;
-        // ---- oracle (untrusted): exact visibility, Dijkstra in doubles
-        std::vector<std::vector<LPt> > polys;
-        std::vector<LPt> V; std::vector<Point> VD;
-        for (auto &p : s.shapes) { std::vector<LPt> q; for (auto &v : p) { q.push_back(toL(v.x, v.y)); V.push_back(q.back()); VD.push_back(v); } polys.push_back(q); }
-        size_t C = V.size(), N = C + 2;
-        V.resize(N); VD.resize(N);
-        auto visible = [&](size_t i, size_t j) {
-            for (auto &q : polys) if (segHitsInteriorL(q, V[i], V[j])) return false;
-            return true;
-        };
-        std::vector<std::vector<char> > vis(N, std::vector<char>(N, 0));
-        for (size_t i = 0; i < C; ++i) for (size_t j = i + 1; j < C; ++j) vis[i][j] = vis[j][i] = visible(i, j);
-        auto len = [&](size_t i, size_t j) { double dx = VD[i].x - VD[j].x, dy = VD[i].y - VD[j].y; return std::sqrt(dx * dx + dy * dy); };
-        const double INF = std::numeric_limits<double>::infinity();
-        for (auto &c : cs) {
-            V[C] = toL(c.sx, c.sy); VD[C] = Point(c.sx, c.sy); V[C + 1] = toL(c.dx, c.dy); VD[C + 1] = Point(c.dx, c.dy);
-            for (size_t e = C; e < N; ++e) for (size_t j = 0; j < N; ++j) if (j != e) vis[e][j] = vis[j][e] = visible(e, j);
-            std::vector<size_t> path;
-            double best = INF;
-            if (penalty == 0) {
-                std::vector<double> dist(N, INF); std::vector<long> prev(N, -1); std::vector<char> done(N, 0);
-                dist[C] = 0;
-                for (size_t it = 0; it < N; ++it) {
-                    size_t u = N; for (size_t i = 0; i < N; ++i) if (!done[i] && dist[i] < INF && (u == N || dist[i] < dist[u])) u = i;
-                    if (u == N) break;
-                    done[u] = 1;
-                    for (size_t w = 0; w < N; ++w) if (w != u && vis[u][w]) { double nd = dist[u] + len(u, w); if (nd < dist[w]) { dist[w] = nd; prev[w] = (long) u; } }
-                }
-                best = dist[C + 1];
-                printf("cert %u %zu", c.id, N);
-                for (size_t i = 0; i < N; ++i) printf(" %s", vh::hx(dist[i] < INF ? dist[i] * (1.0 - 1e-10) : 0.0).c_str());
-                printf("\n");
-                if (best < INF) for (long v = (long) C + 1; v >= 0; v = prev[v]) path.push_back((size_t) v);
-                std::reverse(path.begin(), path.end());
-            } else {
-                // states (v, p): at v having arrived from p (p = N: start)
-                size_t S = N * (N + 1);
-                std::vector<double> dist(S, INF); std::vector<long> prev(S, -1);
-                typedef std::pair<double, size_t> QE;
-                std::priority_queue<QE, std::vector<QE>, std::greater<QE> > pq;
-                dist[C * (N + 1) + N] = 0; pq.push(QE(0, C * (N + 1) + N));
-                long goal = -1;
-                while (!pq.empty()) {
-                    QE t = pq.top(); pq.pop();
-                    if (t.first > dist[t.second]) continue;
-                    size_t v = t.second / (N + 1), p = t.second % (N + 1);
-                    if (v == C + 1) { goal = (long) t.second; best = t.first; break; }
-                    for (size_t w = 0; w < N; ++w) if (w != v && vis[v][w]) {
-                        double cst = len(v, w);
-                        if (p != N && area2L(V[p], V[v], V[w]) != 0) cst += penalty;
-                        else if (p != N) {      // collinear: straight on is free, doubling back is a bend
-                            i64 dot = (V[v].x - V[p].x) * (V[w].x - V[v].x) + (V[v].y - V[p].y) * (V[w].y - V[v].y);
-                            if (dot < 0) cst += penalty;
-                        }
-                        size_t ns = w * (N + 1) + v;
-                        if (t.first + cst < dist[ns]) { dist[ns] = t.first + cst; prev[ns] = (long) t.second; pq.push(QE(dist[ns], ns)); }
-                    }
-                }
-                for (long st = goal; st >= 0; st = prev[st]) path.push_back((size_t) st / (N + 1));
-                std::reverse(path.begin(), path.end());
-            }
-            printf("wit %u %zu", c.id, path.size());
-            for (size_t i = 0; i < path.size(); ++i) printf(" %zu", path[i]);
-            printf("\n");
-            printf("oracle %u %s\n", c.id, vh::hx(best).c_str());
+        long endPos = pos;                  // beyond the last box
+        long t = r.range(1, std::min(3L, minExt - 2));          // offset of the endpoints from the line, towards the boxes
+        long off = lowSide ? line + t : line - t;
+        long s0 = -r.range(2, 8), s1 = endPos + r.range(1, 7);
+        ConnSpec cn; cn.id = 101;
+        bool flip = r.coin();
+        double ax = (double) ((flip ? s1 : s0) * U), bx = (double) ((flip ? s0 : s1) * U), o = (double) (off * U);
+        if (column) { cn.sx = o; cn.sy = ax; cn.dx = o; cn.dy = bx; } else { cn.sx = ax; cn.sy = o; cn.dx = bx; cn.dy = o; }
+        std::vector<size_t> order; for (int i = 0; i < nb; ++i) order.push_back((size_t) i);
+        r.shuffle(order);
+        vs::Scene s; s.W = endPos * U; s.H = 20 * U;
+        for (size_t i = 0; i < order.size(); ++i) { s.shapes.push_back(vs::toD(boxes[order[i]])); s.isRect.push_back(true); }
+        std::vector<ConnSpec> cs; cs.push_back(cn);
+        if (r.coin(1, 3)) {                 // a second connector in the other direction / other offset
+            ConnSpec c2 = cn; c2.id = 102; std::swap(c2.sx, c2.dx); std::swap(c2.sy, c2.dy); cs.push_back(c2);
         }
-        vh::endCase();
+        runCase(k, penalty > 0 ? "aligned-sides-pen" : "aligned-sides", s, cs, true, penalty, ignoreRegions);
     }
     return 0;
 }
